@@ -3,7 +3,7 @@ MAXPUSH data pushes from a small alphabet followed by up to MAXOPS opcodes, and 
 {IF, NOTIF, ELSE, ENDIF, x} up to length MAXFLOW, is evaluated by the real Script.evaluate and by the reference
 interpreter spec.script.eval_script.  A difference is a VIOLATION unless the same script evaluates identically
 under the reference interpreter with the *pinned* (known-finding) opcode semantics substituted."""
-import itertools
+import inspect, itertools
 import time
 
 from spec import script as sp
@@ -21,7 +21,8 @@ def _tables():
         names[num] = n
         f = getattr(sp, n, None)
         # the library names the four comparison opcodes op_num...: evaluate() cannot reach them (raises), handled as "refused"
-        if f is not None and n.startswith('op_') and callable(f) and n not in ('op_if', 'op_notif'):
+        if f is not None and n.startswith('op_') and callable(f) and n not in ('op_if', 'op_notif') \
+                and len(inspect.signature(f).parameters) == 1:      # signature / lock-time opcodes need a transaction environment: contracts only
             ref[num] = f
             pf = getattr(pins, n, None)
             pinned[num] = pf or f
